@@ -15,9 +15,10 @@ READING: a grid without any unshaded cell satisfies rule 3 (there is nothing to 
 import itertools
 
 NAME = "creek"
-STATUS = "differential only"
-THEOREMS = []
-LEAN_CMD = None
+STATUS = "theorem"
+THEOREMS = ["Cspuz.C11.Creek.program_iff_rules", "Cspuz.C11.Creek.total"]
+LEAN_FILE = "C11_Creek"
+LEAN_CMD = "puz_creek"
 
 _SIZES = [(1, 1), (1, 2), (2, 1), (1, 3), (3, 1), (2, 2), (2, 3), (3, 2), (1, 4), (4, 1), (3, 3), (2, 4), (4, 2), (3, 4), (4, 3)]
 
@@ -77,3 +78,8 @@ def rule_check(problem, answer):
                 seen.add(p)
                 todo.append(p)
     return len(seen) == len(cells)
+
+
+def lean_line(problem):
+    rows = " ".join("(" + " ".join(str(v) for v in row) + ")" for row in problem["problem"])
+    return "(puz_%s %d %d (%s))" % (NAME, problem["height"], problem["width"], rows)
